@@ -498,6 +498,50 @@ func runC10(c *harness.Case) {
 			}
 			c.Stat("configured_prefixes_compacted", 1)
 		}
+		// and with skipped prefixes configured: the ranges between the node's own ranges belong to somebody else and
+		// must not be reached
+		{
+			eng2, _ := harness.NewEngine("memkv")
+			skip := harness.Prefix + "/skipped"
+			n2 := harness.NewNode(harness.NodeOpts{KV: eng2.KV, Config: backend.Config{SkippedPrefixes: []string{skip}}})
+			own, foreign := harness.Prefix+"/own/k", skip+"/k"
+			var lastOwn, lastForeign uint64
+			okAll := true
+			for i := 0; i < 3; i++ {
+				for _, kk := range []string{own, foreign} {
+					last := &lastOwn
+					if kk == foreign {
+						last = &lastForeign
+					}
+					var out harness.Outcome
+					if i == 0 {
+						out = n2.Do(harness.SeqOp{Kind: "create", Key: kk, Val: []byte("v")})
+					} else {
+						out = n2.Do(harness.SeqOp{Kind: "update", Key: kk, Val: []byte("v"), Exp: *last})
+					}
+					okAll = okAll && out.Err == "" && out.Succeeded
+					*last = out.Rev
+				}
+			}
+			n2.WaitCommitted(n2.Dealt(), 30e9)
+			_, cerr := n2.B.Compact(harness.Ctx, n2.Committed())
+			dump, derr := harness.Dump(eng2.KV, []byte{0}, []byte{0xff, 0xff, 0xff, 0xff, 0xff})
+			n2.Retire()
+			if okAll && cerr == nil && derr == nil {
+				versions := map[string]int{}
+				for _, rec := range dump {
+					if raw, rev, err := coderC.Decode(rec.Key); err == nil && rev != 0 {
+						versions[string(raw)]++
+					}
+				}
+				if versions[own] != 1 || versions[foreign] != 3 {
+					c.Violatef("C10 compaction-bounds-of-configured-prefix-enclose-wrong-set skipped-prefix", map[string]interface{}{"skipped": skip},
+						"node with skipped prefix %q: after three versions each of %q and %q and Compact(latest) the engine holds %d / %d version records; the compaction must reach its own key (1 left) and leave the skipped one alone (3 left)", skip, own, foreign, versions[own], versions[foreign])
+					return
+				}
+				c.Stat("skipped_prefix_configurations_compacted", 1)
+			}
+		}
 	}
 	c.Fingerprint(nPrefixPairs > 0 && nFF > 0 && nExtreme > 0, c.Seed, c.Index, len(all), nPrefixPairs)
 	if c.Index < 2 {
